@@ -75,6 +75,19 @@ def programs(
     yield from rec(0, [], 0, 0, 0)
 
 
+def with_atom(atom: Sequence[str], max_n: int = 4, nlabels: int = 2) -> Iterator[str]:
+    """G1A - raw layouts in which the pushed value is a tracked condition: every G1 program over
+    the alphabet {ATOM, int 1, labels, b/bz/bnz/callsub, retsub, return, err, assert} where ATOM
+    is a multi-line atom leaving one value on the stack (odd layouts + a real check)."""
+    marker = "@ATOM"
+    plain = (marker, "int 1", "retsub", "return", "err", "assert")
+    text = "\n".join(atom)
+    for n in range(1, max_n + 1):
+        for s in programs(n, nlabels, plain):
+            if marker in s:
+                yield s.replace(marker, text)
+
+
 def space(max_n: int, nlabels: int = 2, plain: Sequence[str] = PLAIN_FULL, multi: bool = False) -> Iterator[str]:
     for n in range(1, max_n + 1):
         yield from programs(n, nlabels, plain, multi)
